@@ -30,7 +30,7 @@ ITER_FUNCS = ["accumulate", "batched", "chain", "combinations", "combinations_wi
               "islice", "islice_empty_range", "pairwise", "permutations", "product", "repeat", "repeat0", "starmap", "takewhile", "zip_longest", "zip_longest_none", "tee", "count_prefix"]
 
 
-def cell(sym, cov, op):
+def cell(sym, cov, op, outermost=False):
     import anyio
     from anyio import CancelScope, WouldBlock, create_memory_object_stream
 
@@ -187,13 +187,18 @@ def cell(sym, cov, op):
             raise AssertionError(op)
 
         need_cancel_only = op in ("cond_wait_cancelled", "run_sync_cancelled")
-        with CancelScope() as outer:
+        # thorough tier: a third, outermost scope with its own symbolic cancel flag and a symbolic shield on `outer`
+        c2 = sym.bool("outermost_cancelled") if outermost else False
+        s0 = sym.bool("outer_shield") if outermost else False
+        with CancelScope() as outermost_scope, CancelScope(shield=s0) as outer:
             with CancelScope(shield=s1) as inner:
+                if c2:
+                    outermost_scope.cancel()
                 if c0:
                     outer.cancel()
                 if c1:
                     inner.cancel()
-                eff = bool(c1) or (not s1 and bool(c0))
+                eff = bool(c1) or (not s1 and (bool(c0) or (not s0 and bool(c2))))
                 if need_cancel_only and not eff:
                     sym.assume(False)
                 state_before = snap()
@@ -450,6 +455,9 @@ def units(tier):
     us = []
     for op in OPS:
         us.append({"name": "op %s" % op, "fn": cell, "params": {"op": op}, "budget_s": 60})
+    if tier != "quick":
+        for op in OPS:
+            us.append({"name": "op %s (3 scopes)" % op, "fn": cell, "params": {"op": op, "outermost": True}, "budget_s": 300})
     for op in SYNC_OPS:
         us.append({"name": "sync %s" % op, "fn": sync_cell, "params": {"op": op}, "budget_s": 30})
     for fn in ITER_FUNCS:
